@@ -45,6 +45,13 @@ CHECKS += [
      "note": "Partial for finite floats: bit-exact round trip and JSON validity are proved only under hypotheses about strconv.AppendFloat('f',-1)/ParseFloat (theorems *_partial); these are validated, not proved, on >=54k structured and random bit patterns per run. Go stdlib pieces (utf8, base64, strconv integers) and the easyjson lexer are modelled by semantics and tied by the correspondence run. No axioms."},
 ]
 
+CHECKS += [
+    {"id": "C02",
+     "technique": "Coq proof (reader canonicity by induction on fuel over the schema-IR TL1 model, rejection lemmas) + kernel-dump translator + extracted-model vs generated-Go correspondence on mutated and random byte strings",
+     "text": "Closed Coq theorems: for every wf schema without map-backed dictionaries, every type, bare or boxed, every byte string: if dec1 accepts, the input is exactly (enc1 of the decoded value) ++ rest; unknown union tags, wrong struct tags, non-boolean Bool tags, non-minimal string length forms and non-zero padding are rejected; sorted duplicate-free dictionary input is rebuilt exactly. Tie: valid encodings and ~8 mutations each (truncation, bit flips, schema-tag swaps, count edits, word insert/delete, garbage tails) plus random strings are read by freshly generated Go code and by the extracted model; verdict, consumed length and re-written bytes compared; model-free oracle: accepted prefix is re-written identically (dictionary types: re-emission is a fixpoint).",
+     "note": "PARTIAL w.r.t. the property text: the canonicity theorem excludes types containing map-backed dictionaries (their sorted/deduplicated re-emission is covered by the correspondence and the Go-side stability oracle, and by the dict_fold_sorted lemma). Templates modelled by hand; agreement shown on the enumerated inputs. Packages generated with --checkLengthSanity=false get only gentle mutations (their readers allocate `count` elements by design). No axioms."},
+]
+
 _claimed = {c["id"] for c in CHECKS}
 _reasons = {
     "C32": "PHP serializers: no PHP/KPHP interpreter exists in the sandbox and nothing can be installed, so generated PHP cannot be executed; neither a correspondence check nor a failing-input search can exist (DESIGN.md section 8)",
